@@ -22,6 +22,15 @@ import (
 
 func h1CDEnc(t *vhT, num uint16, d []byte) {
 	c := ChannelData{Number: ChannelNumber(num), Data: d}
+	if len(d) < 4096 && t.Rng.Intn(3) == 0 {
+		// a reused value: Raw keeps the (non-zero) bytes of an earlier, longer message in its backing array
+		dirty := make([]byte, len(d)+64)
+		for i := range dirty {
+			dirty[i] = 0xAA
+		}
+		c.Raw = dirty[:0]
+		t.Stat("cdenc.reused-buffer")
+	}
 	c.Encode()
 	t.Op("cdenc %d %s", num, vhHex(d))
 	t.Obs("%s", vhHex(c.Raw))
